@@ -500,3 +500,13 @@ def reevaluate(ctx, new_rule, fn, *args):
         o['detail'] = '[%s] %s' % (o['rule'], o['detail'])
         o['rule'] = new_rule
     ctx.rules_run.add(new_rule)
+
+
+def stdin_paths_body(lib):
+    """The body that turns the standard input into the paths to scan: GroupConfig::input_paths or the sibling it
+    delegates to (same impl, name starting with input_paths); found by its call of std::io::stdin."""
+    cands = [b for p_, b in sorted(lib.bodies.items()) if re.search(r'^config::GroupConfig::input_paths\w*$', p_)]
+    for b in cands:
+        if b.calls(r'^std::io::stdin$'):
+            return b
+    return lib.body('config::GroupConfig::input_paths')
